@@ -288,9 +288,14 @@ func (p *Connect) payload(b []byte, i int) int {
 		properties := func(b []byte, i int) int {
 			n := i
 
-			for id, v := range p.willPropertyMap() {
-				i += v().fillProp(b, i, id)
-			}
+			// fixed order; ranging over willPropertyMap would make
+			// the encoding differ from call to call
+			i += p.willDelayInterval.fillProp(b, i, WillDelayInterval)
+			i += p.will.payloadFormat.fillProp(b, i, PayloadFormatIndicator)
+			i += p.will.messageExpiryInterval.fillProp(b, i, MessageExpiryInterval)
+			i += p.will.contentType.fillProp(b, i, ContentType)
+			i += p.will.responseTopic.fillProp(b, i, ResponseTopic)
+			i += p.will.correlationData.fillProp(b, i, CorrelationData)
 			i += p.will.UserProperties.properties(b, i)
 
 			return i - n
